@@ -54,14 +54,31 @@ Section Total.
   Variable g : guards.
   Hypothesis G : all_guarded g = true.
 
-  Lemma G_all : g_ints_target g = true /\ g_ints_walk_once g = true /\ g_dm_path g = true /\ g_swagger_rest g = true /\
-                g_sw_param_schema g = true /\ g_oa3_ret_split g = true /\ g_db_path g = true /\ g_db_writer_path g = true /\ g_db_progress g = true /\ g_mseq_err g = true /\
-                g_mint_app g = true /\ g_render_recover g = true.
-  Proof. pose proof G as H. unfold all_guarded in H. repeat (apply andb_true_iff in H; destruct H as [H ?]). repeat split; assumption. Qed.
+  Ltac from_G := pose proof G as H; unfold all_guarded in H; repeat (apply andb_true_iff in H; destruct H as [H ?]); assumption.
+  Lemma G_ints_target : g_ints_target g = true. Proof. from_G. Qed.
+  Lemma G_ints_disc : terminating (g_ints_disc g) = true. Proof. from_G. Qed.
+  Lemma G_dm_path : g_dm_path g = true. Proof. from_G. Qed.
+  Lemma G_swagger_rest : g_swagger_rest g = true. Proof. from_G. Qed.
+  Lemma G_sw_param_schema : g_sw_param_schema g = true. Proof. from_G. Qed.
+  Lemma G_oa3_ret_split : g_oa3_ret_split g = true. Proof. from_G. Qed.
+  Lemma G_db_path : g_db_path g = true. Proof. from_G. Qed.
+  Lemma G_db_writer_path : g_db_writer_path g = true. Proof. from_G. Qed.
+  Lemma G_db_progress : g_db_progress g = true. Proof. from_G. Qed.
+  Lemma G_mseq_err : g_mseq_err g = true. Proof. from_G. Qed.
+  Lemma G_mint_app : g_mint_app g = true. Proof. from_G. Qed.
+  Lemma G_render_recover : g_render_recover g = true. Proof. from_G. Qed.
+  Lemma G_mseq_disc : terminating (g_mseq_disc g) = true. Proof. from_G. Qed.
+  Lemma G_mint_disc : terminating (g_mint_disc g) = true. Proof. from_G. Qed.
+  Lemma G_sd_target : g_sd_target g = true. Proof. from_G. Qed.
+  Lemma G_sd_disc : terminating (g_sd_disc g) = true. Proof. from_G. Qed.
+  Lemma G_delta_relation : g_delta_relation g = true. Proof. from_G. Qed.
+  Lemma G_tmpl_app : g_tmpl_app g = true. Proof. from_G. Qed.
+  Lemma G_rig_nilapp : g_rig_nilapp g = true. Proof. from_G. Qed.
+  Lemma G_delta_trim : g_delta_trim g || (g_coldef_ref g && g_coldef_auto g && g_coldef_plain g) = true. Proof. from_G. Qed.
 
   Lemma render_fine rend o : fine o = true -> fine (render g rend o) = true.
   Proof.
-    destruct G_all as (_ & _ & _ & _ & _ & _ & _ & _ & _ & _ & _ & Hr).
+    pose proof G_render_recover as Hr.
     intros H. destruct o; try discriminate H; cbn [render]; [|reflexivity]. destruct rend; [reflexivity|]. rewrite Hr. reflexivity.
   Qed.
 
@@ -69,7 +86,7 @@ Section Total.
   Lemma mseq_fine m fuel a e : (length (all_calls m) < fuel)%nat -> fine (mseq g m fuel a e) = true.
   Proof.
     intros Hf. unfold mseq.
-    apply (walk_fine pair_eqb pair_eqb_spec (mseq_expand m) (mseq_onerr g) true (keyed (fun a c => (a_name a, c_ep c)) m)).
+    apply (walk_fine pair_eqb pair_eqb_spec (mseq_expand m) (mseq_onerr g) (keyed (fun a c => (a_name a, c_ep c)) m)); [| | | |exact G_mseq_disc|].
     - intros n o es pre k n' He Hin. unfold mseq_expand in He.
       destruct (find_app m (fst n)) as [ap|] eqn:Ea; [|inversion He; subst; destruct Hin].
       destruct (find_ep ap (snd n)) as [ep|] eqn:Ee; [|inversion He; subst; destruct Hin].
@@ -79,7 +96,7 @@ Section Total.
     - intros n. unfold mseq_expand. destruct (find_app m (fst n)); [|reflexivity]. destruct (find_ep a0 (snd n)); reflexivity.
     - intros n pre tgt. unfold mseq_expand. destruct (find_app m (fst n)); [|intros []]. destruct (find_ep a0 (snd n)); [|intros []].
       cbn [snd]. intros Hin. apply in_map_iff in Hin. destruct Hin as (c & Hc & _). inversion Hc. reflexivity.
-    - destruct G_all as (_ & _ & _ & _ & _ & _ & _ & _ & _ & Hm & _). unfold mseq_onerr. rewrite Hm. reflexivity.
+    - unfold mseq_onerr. rewrite G_mseq_err. reflexivity.
     - pose proof (unseen_le pair_eqb (keyed (fun a c => (a_name a, c_ep c)) m) []) as Hle. rewrite keyed_length in Hle. lia.
   Qed.
 
@@ -98,10 +115,10 @@ Section Total.
   Qed.
 
   Lemma mint_walk_fine m fuel n : (length (all_calls m) < fuel)%nat ->
-    fine (fst (walk pair_eqb (mint_expand g m) Err true true fuel n [])) = true.
+    fine (fst (walk pair_eqb (mint_expand g m) Err (g_mint_disc g) fuel n [])) = true.
   Proof.
-    intros Hf. destruct G_all as (_ & _ & _ & _ & _ & _ & _ & _ & _ & _ & Hmi & _).
-    apply (walk_fine pair_eqb pair_eqb_spec (mint_expand g m) Err true (keyed (fun a c => (a_name a, c_app c)) m)).
+    intros Hf. pose proof G_mint_app as Hmi.
+    apply (walk_fine pair_eqb pair_eqb_spec (mint_expand g m) Err (keyed (fun a c => (a_name a, c_app c)) m)); [| | | |exact G_mint_disc|].
     - intros n0 o es pre k n' He Hin. unfold mint_expand in He. destruct n0 as [x|].
       + destruct (find_app m x) as [ap|] eqn:Ea.
         * inversion He; subst. apply find_app_some in Ea. destruct Ea as [Ha _]. eapply mint_edges_keys; eassumption.
@@ -123,7 +140,7 @@ Section Total.
   Lemma ints_edge_spec m excl pass c pre tgt : ints_edge g m excl pass c = (pre, tgt) ->
     pre = Ok /\ (forall k n', tgt = Some (k, n') -> k = (c_app c, c_ep c)).
   Proof.
-    destruct G_all as (Hi & _). unfold ints_edge. rewrite Hi.
+    pose proof G_ints_target as Hi. unfold ints_edge. rewrite Hi.
     destruct (memN (c_app c) excl); [intros [= <- <-]; split; [reflexivity|discriminate]|].
     destruct (find_app m (c_app c)) as [ta|].
     - destruct (a_human ta); [intros [= <- <-]; split; [reflexivity|discriminate]|].
@@ -133,9 +150,9 @@ Section Total.
 
   Lemma ints_view_fine m fuel cx view : (length (all_calls m) < fuel)%nat -> fine (ints_view g m fuel cx view) = true.
   Proof.
-    intros Hf. destruct G_all as (_ & Hw & _). unfold ints_view. rewrite Hw.
+    intros Hf. unfold ints_view.
     set (excl := cx ++ e_excl view). set (pass := e_pass view).
-    apply (walk_fine pair_eqb pair_eqb_spec (ints_expand g m excl pass view) Err false (keyed (fun _ c => (c_app c, c_ep c)) m)).
+    apply (walk_fine pair_eqb pair_eqb_spec (ints_expand g m excl pass view) Err (keyed (fun _ c => (c_app c, c_ep c)) m)); [| | | |exact G_ints_disc|].
     - intros n o es pre k n' He Hin. unfold ints_expand in He. destruct n as [[a e]|].
       + destruct (find_app m a) as [ta|] eqn:Ea; [|inversion He; subst; destruct Hin].
         destruct (find_ep ta e) as [ep|] eqn:Ee; [|inversion He; subst; destruct Hin].
@@ -170,7 +187,7 @@ Section Total.
   (* ---- datamodel, swagger ---- *)
   Lemma dm_view_fine m only : fine (dm_view g m only) = true.
   Proof.
-    destruct G_all as (_ & _ & Hd & _).
+    pose proof G_dm_path as Hd.
     assert (Ht : forall t, fine (dm_type g t) = true).
     { intros t. unfold dm_type. destruct (t_table t); [|reflexivity]. apply first_bad_map_fine. intros f _.
       unfold dm_field. destruct (f_ref f); [|reflexivity]. rewrite Hd. destruct (short_path l); reflexivity. }
@@ -187,12 +204,12 @@ Section Total.
   Qed.
   Lemma sw_params_fine ps : fine (sw_params g ps) = true.
   Proof.
-    destruct G_all as (_ & _ & _ & _ & Hsp & _).
+    pose proof G_sw_param_schema as Hsp.
     induction ps as [|p r IH]; [reflexivity|]. cbn [sw_params]. destruct p; [exact IH|rewrite Hsp; exact IH|reflexivity].
   Qed.
   Lemma swagger_fine m sel : fine (swagger g m sel) = true.
   Proof.
-    destruct G_all as (_ & _ & _ & Hs & _).
+    pose proof G_swagger_rest as Hs.
     assert (Ha : forall a, fine (sw_app g a) = true).
     { intros a. unfold sw_app. apply first_bad_map_fine. intros e _. unfold sw_ep. rewrite Hs.
       destruct (e_words e <? 2); [reflexivity|apply sw_params_fine]. }
@@ -202,10 +219,10 @@ Section Total.
   Qed.
   Lemma openapi3_fine m sel : fine (openapi3 g m sel) = true.
   Proof.
-    destruct G_all as (_ & _ & _ & _ & _ & Ho & _).
+    pose proof G_oa3_ret_split as Ho.
     assert (Ha : forall a, fine (oa3_app g a) = true).
     { intros a. unfold oa3_app. apply first_bad_map_fine. intros e _. unfold oa3_ep. apply first_bad_map_fine.
-      intros b _. rewrite Ho. destruct b; reflexivity. }
+      intros r _. rewrite Ho. destruct (snd r); reflexivity. }
     unfold openapi3. destruct sel as [n|].
     - destruct (find_app m n); [apply Ha|reflexivity].
     - destruct m; [reflexivity|]. apply first_bad_map_fine. intros a0 _. apply Ha.
@@ -214,7 +231,7 @@ Section Total.
   (* ---- database scripts ---- *)
   Lemma ftd_ok vis fs : fst (ftd g vis fs) = Ok.
   Proof.
-    destruct G_all as (_ & _ & _ & _ & _ & _ & Hp & _).
+    pose proof G_db_path as Hp.
     induction fs as [|f r IH]; [reflexivity|]. cbn [ftd]. destruct (f_ref f) as [p|]; [|exact IH].
     destruct p as [|t [|c p']]; try (rewrite Hp; destruct (ftd g vis r); cbn [fst] in *; exact IH).
     destruct (ftd g vis r); cbn [fst] in *; exact IH.
@@ -236,29 +253,102 @@ Section Total.
 
   Lemma db_order_fine : forall fuel inc vis, (length inc < fuel)%nat -> fine (db_order g fuel inc vis) = true.
   Proof.
-    destruct G_all as (_ & _ & _ & _ & _ & _ & _ & _ & Hpr & _).
+    pose proof G_db_progress as Hpr.
     induction fuel as [|f IH]; intros inc vis Hf; [lia|]. cbn [db_order].
     pose proof (db_pass_spec inc vis) as Hs. destruct (db_pass g inc vis) as [[[o v2] rem] p].
     destruct Hs as (-> & Hl & Hp). destruct rem as [|t rem]; [reflexivity|]. rewrite Hpr. destruct p; cbn [negb andb]; [|reflexivity].
     apply IH. specialize (Hp eq_refl). lia.
   Qed.
 
-  Lemma db_create_fine m fuel apps : (length (all_types m) < fuel)%nat -> fine (db_create g m fuel apps) = true.
+  Lemma types_le m a : In a m -> (length (a_types a) <= length (all_types m))%nat.
   Proof.
-    intros Hf. destruct G_all as (_ & _ & _ & _ & _ & _ & _ & Hw & _).
-    unfold db_create. apply first_bad_map_fine. intros n _. destruct (find_app m n) as [a|] eqn:Ea; [|reflexivity].
-    unfold db_app. assert (Hlen : (length (a_types a) <= length (all_types m))%nat).
-    { apply find_app_some in Ea. destruct Ea as [Ha _]. unfold all_types. clear -Ha. induction m as [|x r IH]; [destruct Ha|].
-      cbn [flat_map]. rewrite app_length. destruct Ha as [->|Ha]; [lia|]. specialize (IH Ha). lia. }
-    pose proof (db_order_fine fuel (a_types a) [] ltac:(lia)) as Ho.
+    intros Ha. unfold all_types. induction m as [|x r IH]; [destruct Ha|].
+    cbn [flat_map]. rewrite app_length. destruct Ha as [->|Ha]; [lia|]. specialize (IH Ha). lia.
+  Qed.
+  Lemma db_writer_field_fine f : fine (db_writer_field g f) = true.
+  Proof. unfold db_writer_field. destruct (f_ref f); [|reflexivity]. rewrite G_db_writer_path. destruct (short_path l); reflexivity. Qed.
+  Lemma create_table_fine t : fine (create_table g t) = true.
+  Proof. unfold create_table. apply first_bad_map_fine. intros f _. apply db_writer_field_fine. Qed.
+
+  Lemma db_app_fine fuel a : (length (a_types a) < fuel)%nat -> fine (db_app g fuel a) = true.
+  Proof.
+    intros Hf. unfold db_app.
+    pose proof (db_order_fine fuel (a_types a) [] Hf) as Ho.
     destruct (db_order g fuel (a_types a) []); try discriminate Ho; [|reflexivity].
     unfold db_writer. apply first_bad_map_fine. intros t _. destruct (t_table t); [|reflexivity].
-    apply first_bad_map_fine. intros f _. unfold db_writer_field. destruct (f_ref f); [|reflexivity]. rewrite Hw. destruct (short_path l); reflexivity.
+    apply first_bad_map_fine. intros f _. apply db_writer_field_fine.
   Qed.
 
-  Theorem cmd_total m rend fuel c : (fuel_bound m <= fuel)%nat -> fine (run g m rend fuel c) = true.
+  Lemma db_create_fine m fuel apps : (length (all_types m) < fuel)%nat -> fine (db_create g m fuel apps) = true.
   Proof.
-    unfold fuel_bound. intros Hf. destruct c; cbn [run].
+    intros Hf. unfold db_create. apply first_bad_map_fine. intros n _. destruct (find_app m n) as [a|] eqn:Ea; [|reflexivity].
+    apply db_app_fine. apply find_app_some in Ea. destruct Ea as [Ha _]. pose proof (types_le m a Ha). lia.
+  Qed.
+
+  (* ---- delta scripts ---- *)
+  Lemma delta_added_fine f : fine (delta_added g f) = true.
+  Proof.
+    unfold delta_added. pose proof (db_writer_field_fine f) as Hw. destruct (db_writer_field g f); try discriminate Hw; [|reflexivity].
+    pose proof G_delta_trim as Ht. destruct (g_delta_trim g); [rewrite orb_true_r; reflexivity|]. cbn [orb] in Ht.
+    apply andb_true_iff in Ht. destruct Ht as [Ht Hp]. apply andb_true_iff in Ht. destruct Ht as [Hr Ha].
+    unfold coldef_nonempty. destruct (kind_of g f); rewrite ?Hr, ?Ha, ?Hp; reflexivity.
+  Qed.
+  Lemma delta_retained_fine fn fo : fine (delta_retained g fn fo) = true.
+  Proof.
+    unfold delta_retained. apply first_bad_fine.
+    repeat constructor; apply db_writer_field_fine.
+  Qed.
+  Lemma delta_type_fine olds t : fine (delta_type g olds t) = true.
+  Proof.
+    unfold delta_type. rewrite G_delta_relation. destruct (find_typ olds (t_name t)) as [told|].
+    - destruct (t_table t && t_table told).
+      + unfold delta_modify. apply first_bad_map_fine. intros f _. destruct (find_field (t_fields told) (f_name f)).
+        * apply delta_retained_fine.
+        * apply delta_added_fine.
+      + destruct (t_table t); [apply create_table_fine|reflexivity].
+    - destruct (t_table t); [apply create_table_fine|reflexivity].
+  Qed.
+  Lemma db_delta_fine mold m fuel apps : (length (all_types m) + length (all_types mold) < fuel)%nat -> fine (db_delta g mold m fuel apps) = true.
+  Proof.
+    intros Hf. unfold db_delta. apply first_bad_map_fine. intros n _. unfold delta_app.
+    destruct (find_app mold n) as [o|] eqn:Eo; destruct (find_app m n) as [a|] eqn:Ea; try reflexivity.
+    - apply find_app_some in Eo. destruct Eo as [Ho _]. apply find_app_some in Ea. destruct Ea as [Ha _].
+      pose proof (types_le mold o Ho). pose proof (types_le m a Ha).
+      pose proof (db_order_fine fuel (a_types o) [] ltac:(lia)) as H1.
+      destruct (db_order g fuel (a_types o) []); try discriminate H1; [|reflexivity].
+      pose proof (db_order_fine fuel (a_types a) [] ltac:(lia)) as H2.
+      destruct (db_order g fuel (a_types a) []); try discriminate H2; [|reflexivity].
+      apply first_bad_map_fine. intros t _. apply delta_type_fine.
+    - apply db_app_fine. apply find_app_some in Ea. destruct Ea as [Ha _]. pose proof (types_le m a Ha). lia.
+  Qed.
+
+  (* ---- sd ---- *)
+  Lemma sd_fine m fuel a e : (length (all_calls m) < fuel)%nat -> fine (sd g m fuel a e) = true.
+  Proof.
+    intros Hf. unfold sd. destruct (find_app m a) as [ta0|]; [|reflexivity]. destruct (find_ep ta0 e); [|reflexivity].
+    pose proof G_sd_target as Ht.
+    apply (walk_fine pair_eqb pair_eqb_spec (sd_expand g m (a, e)) Err ((a, e) :: keyed (fun _ c => (c_app c, c_ep c)) m)); [| | | |exact G_sd_disc|].
+    - intros n o es pre k n' He Hin. unfold sd_expand in He. destruct n as [[x y]|].
+      + rewrite Ht in He. destruct (find_app m x) as [ta|] eqn:Ea; [|inversion He; subst; destruct Hin].
+        destruct (find_ep ta y) as [ep|] eqn:Ee; [|inversion He; subst; destruct Hin].
+        inversion He; subst. apply in_map_iff in Hin. destruct Hin as (c & Hc & Hin). inversion Hc; subst.
+        apply find_app_some in Ea. destruct Ea as [Ha _]. apply find_ep_some in Ee. destruct Ee as [Hep _].
+        right. apply (in_keyed (fun _ c => (c_app c, c_ep c)) m ta ep c Ha Hep Hin).
+      + inversion He; subst. destruct Hin as [Hin|[]]. inversion Hin; subst. left. reflexivity.
+    - intros n. unfold sd_expand. destruct n as [[x y]|]; [|reflexivity]. rewrite Ht.
+      destruct (find_app m x); [|reflexivity]. destruct (find_ep a0 y); reflexivity.
+    - intros n pre tgt. unfold sd_expand. destruct n as [[x y]|].
+      + rewrite Ht. destruct (find_app m x); [|intros []]. destruct (find_ep a0 y); [|intros []]. cbn [snd].
+        intros Hin. apply in_map_iff in Hin. destruct Hin as (c & Hc & _). inversion Hc. reflexivity.
+      + cbn [snd]. intros [Hin|[]]. inversion Hin. reflexivity.
+    - reflexivity.
+    - pose proof (unseen_le pair_eqb ((a, e) :: keyed (fun _ c => (c_app c, c_ep c)) m) []) as Hle.
+      cbn [length] in Hle. rewrite keyed_length in Hle. lia.
+  Qed.
+
+  Theorem cmd_total m rend fuel c : (fuel_bound m + cmd_extra c <= fuel)%nat -> fine (run g m rend fuel c) = true.
+  Proof.
+    unfold fuel_bound. intros Hf. destruct c; cbn [run cmd_extra] in *.
     - apply render_fine, mseq_fine. lia.
     - apply render_fine, mint_fine. lia.
     - apply ints_fine. lia.
@@ -267,5 +357,9 @@ Section Total.
     - apply swagger_fine.
     - apply openapi3_fine.
     - apply db_create_fine. lia.
+    - apply sd_fine. lia.
+    - apply db_delta_fine. lia.
+    - unfold template. rewrite G_tmpl_app. destruct (existsb (undefined_app m) apps); reflexivity.
+    - unfold testrig. rewrite G_rig_nilapp. reflexivity.
   Qed.
 End Total.
